@@ -11,7 +11,7 @@ import IcingaProofs.C20
 namespace Icinga.C14
 
 open Icinga.C20 (JValue NumCodec Bytes jsonEncode jsonDecode nsEncode nsEncodeAll nsReadAll json_roundtrip
-  json_roundtrip_int intCodec frames_split_regardless_of_chunking bufLimitExceeded)
+  json_roundtrip_int intCodec frames_split_regardless_of_chunking bufLimitExceeded depth jsonMaxNestingDepth)
 
 /-! ## (a) modify / restore
 
@@ -289,7 +289,8 @@ def StateOK {N : Type} (known : Key → Bool) (o : SObj N) : Prop :=
   (o.fields.map Prod.fst).Nodup ∧ ∀ e ∈ o.fields, e.1 ≠ [] ∧ e.1 ≠ typeKey ∧ onlyKnownTypes known e.2 = true
 
 /-- **state_roundtrip_partial.**  Full statement: for all objects.  Proved: for every lawful number
-    codec, every list of objects satisfying `StateOK` (frames below 10^9 bytes) and **every chunking** of
+    codec, every list of objects satisfying `StateOK` (frames below 10^9 bytes, nested at most 1000 deep — the
+    limit of the real JsonDecode since 24727c0; a frame nested deeper is refused) and **every chunking** of
     the file `DumpObjects` writes, the read loop of `RestoreObjects` yields exactly the frames, in
     order, then EOF, and `RestoreObject` of each frame onto a freshly created object with the same fields
     sets every field to exactly the dumped value — any nesting, any strings and keys, empty values. -/
@@ -298,6 +299,7 @@ theorem state_roundtrip_partial {N : Type} (c : NumCodec N) (hc : c.Lawful) (kno
     (hok : ∀ o ∈ objs, StateOK known o)
     (hfresh : ∀ o ∈ objs, (fresh o).fields.map Prod.fst = o.fields.map Prod.fst)
     (hlen : ∀ o ∈ objs, (frameBody c o).length < 10 ^ 9)
+    (hdepth : ∀ o ∈ objs, depth (persistent o) ≤ jsonMaxNestingDepth)
     (hchunks : chunks.flatten = stateFile c objs) :
     (nsReadAll none chunks).items = objs.map (frameBody c) ∧ (nsReadAll none chunks).final = .eof ∧
       ∀ o ∈ objs, restoreMessage c known (fresh o) (frameBody c o) = some { fresh o with fields := o.fields } := by
@@ -310,7 +312,7 @@ theorem state_roundtrip_partial {N : Type} (c : NumCodec N) (hc : c.Lawful) (kno
   refine ⟨hi, hf, ?_⟩
   intro o ho
   obtain ⟨hnd, hall⟩ := hok o ho
-  exact restoreMessage_frameBody c hc known o (fresh o) hnd hall (hfresh o ho)
+  exact restoreMessage_frameBody c hc known o (fresh o) hnd hall (hfresh o ho) (hdepth o ho)
 
 /-- An object whose `executions` hold `{ disk = { type = "ext4" } }`. -/
 def sampleState : SObj Int :=
@@ -330,7 +332,7 @@ theorem state_roundtrip_counterexample :
         (frameBody intCodec sampleState) =
       some { sampleState with fields := [(['e', 'x'], .obj [(['d'], .null)]), (['n'], .num 3)] } := by
   unfold restoreMessage frameBody
-  rw [json_roundtrip_int]
+  rw [json_roundtrip_int _ (by decide)]
   decide
 
 /-! ## (c) atomic replacement -/
